@@ -57,7 +57,7 @@ LabOpts == << [lab |-> <<>>, num |-> <<>>],
               [lab |-> <<SLab("k", <<"y">>), SLab("j", <<"z">>)>>, num |-> <<>>] >>
 
 ValPairs == IF Tier = "quick"
-            THEN { << <<1, 3>>, <<2, -2>> >>, << <<-1, 1>>, <<1, 3>> >> }
+            THEN { << <<1, 3>>, <<2, -2>> >>, << <<-1, 1>>, <<1, 3>> >>, << <<1, 3>>, <<2, 0>> >> }
             ELSE { << <<1, 3>>, <<2, -2>> >>, << <<-1, 1>>, <<1, 3>> >>, << <<0, 3>>, <<2, 0>> >>, << <<2, 1>>, <<-2, -1>> >> }
 
 Profiles ==
